@@ -442,6 +442,6 @@ def ledger_episode(ctx, props, chain=False, discrete=False, prebuilt=None):
     ctx.sample = {"contracts": [c.symbol if not isinstance(c, FutureChain) else "chain:" + c.contracts[0].symbol_short for c in cs],
                   "steps": len(outs), "latency": L, "delay": d, "reward": type(rw).__name__, "cash0": cash0,
                   "fees": {"fixed": fees.fixed, "proportional": fees.proportional, "markup": fees.markup},
-                  "actions": [a if isinstance(a, int) else [float(z) for z in a] for a in acts[:6]],
+                  "actions": [int(a) if isinstance(a, (int, np.integer)) else [float(z) for z in a] for a in acts[:6]],
                   "n_events": len(evs), "late_fold_start": cfg["i0"]}
     return cfg, outs
